@@ -17,8 +17,8 @@ CHECKS = {
                 note=TB),
     "C13": dict(level="model_checking", ref="3 C13",
                 tech="TLC trace validation of every device x every (mnemonic, addressing form) against Devices!Unavailable and AvrIsa",
-                text="All devices of the public table x all mnemonic/addressing forms; TLC requires error iff the device's documented flags take the form away, and otherwise exactly the words of the no-device encoding (one-word lds/sts on the reduced core); operands at both ends of every class; plus whole programs per device and form (other forms of the same mnemonic first, then the form, a label, a jump to it and its value) judged by Assembler!Run.",
-                note=TB + "; flag semantics as documented on the DisabledOptions type; ldd/std on Tiny1x/Avr8l via ld/st mnemonics excluded as unspecified"),
+                text="All devices of the public table x all mnemonic/addressing forms; TLC requires error iff the device's documented flags take the form away, and otherwise exactly the words of the no-device encoding (one-word lds/sts on the reduced core); operands at both ends of every class; plus whole programs per device and form (other forms of the same mnemonic first, then the form, a label, a jump to it and its value) judged by Assembler!Run. Registers are also written through .def aliases (rebound inside .dseg as well).",
+                note=TB + "; flag semantics as documented on the DisabledOptions type; ldd/std forms on the reduced core (Avr8l) excluded as unspecified; on Tiny1x parts a displacement operand is LDD/STD however the mnemonic is written"),
     "C02": dict(level="model_checking", ref="3 C02",
                 tech="TLC trace validation of whole-program builds against Assembler.tla (layout/emit state machine)",
                 text="All item sequences up to length 3 (thorough 4) over a 14-symbol layout alphabet x 3 device classes, plus seeded random programs of 5-60 items over 5 devices, each with a .dw table of its labels, are built by the real code; TLC recomputes every build with Assembler!Run (one location counter per segment type, .org gaps zero-filled, labels at the next item) and accepts only identical images, sizes and RAM usage. MC_Layout model-checks the layout theorems (LandsWhereAssigned, NoOverlap, GapsAreZero, LabelAtNextItem, OrgHonoured) on the specification for all programs up to 4 (thorough 5) items. The hook events of the layout/emission passes (feature verif) of a sample of these builds, of the repository's fixtures, of every shipped part file and of the repository's own test suite are replayed step by step through Trace_Pipeline.",
@@ -41,11 +41,11 @@ CHECKS = {
                 note=TB + "; blank lines in the file are ignored"),
     "C08": dict(level="model_checking", ref="3 C08",
                 tech="TLC trace validation of all well-formed conditional structures against the conditional stack of Assembler.tla",
-                text="Every well-formed nesting structure (if / elif* / else? / endif, nesting <= 3) up to 7 lines (thorough 9), instantiated with all-true, all-false and seeded truth assignments over literal, .equ and .define conditions, with marker instructions, messages, garbage text, .define and label definitions in the branches; TLC's reference (stack with taken flag) must give the same image, messages and error status; conditions with negative and huge values and the '#' spelling of the directives included. MC_Cond model-checks the reference itself for all well-formed programs up to 6 (thorough 7) lines: the stack machine selects exactly the lines a declarative, stack-free reading of the property selects, filtering preserves the result, and the reader without a taken flag (the implementation before its fix) violates it.",
+                text="Every well-formed nesting structure (if / elif* / else? / endif, nesting <= 3) up to 7 lines (thorough 9), instantiated with all-true, all-false and seeded truth assignments over literal, .equ and .define conditions, with marker instructions, messages, garbage text, .define and label definitions in the branches; TLC's reference (stack with taken flag) must give the same image, messages and error status; conditions with negative and huge values and the '#' spelling of the directives included. MC_Cond model-checks the reference itself for all well-formed programs up to 6 (thorough 7) lines: the stack machine selects exactly the lines a declarative, stack-free reading of the property selects, filtering preserves the result, and the reader without a taken flag (the implementation before its fix) violates it. Conditionals inside macro bodies whose outcome depends on earlier expansions, macro definitions inside skipped branches and conditions without a value in positions that are not evaluated are generated as well. The specification's conditional stack (Cond.tla) is model-checked as a machine of its own for programs of any length (MC_CondMachine, nesting <= 6 quick / 8 thorough: Agree, AtMostOne, NoPeek, Decides), and the judge of the reader hooks' line events is checked complete and sound against it; those line events of the real reader (every line handed on / passed over / recorded) are replayed for the generated programs, the repository's fixtures, part files and own test suite.",
                 note=TB + "; ill-formed chains not generated"),
     "C09": dict(level="model_checking", ref="3 C09",
                 tech="TLC trace validation of macro programs against the syntax-tree substitution of Assembler.tla",
-                text="40 macro bodies (register, repeated parameter, one operator of every precedence level on either side of the parameter, data, index forms, conditionals on parameters, nested calls with permuted parameters, bodies switching to the data and EEPROM segments) x seeded argument sets x five call placements x letter case of definition and call, plus missing-argument and undefined-macro variants; TLC expands on the syntax tree (argument substituted as a unit) and requires the same image or error.",
+                text="40 macro bodies (register, repeated parameter, one operator of every precedence level on either side of the parameter, data, index forms, conditionals on parameters, nested calls with permuted parameters, bodies switching to the data and EEPROM segments) x seeded argument sets x five call placements x letter case of definition and call, plus missing-argument and undefined-macro variants; TLC expands on the syntax tree (argument substituted as a unit) and requires the same image or error. MC_Macro model-checks the specification's expansion against a purely textual flattening (HandExpanded) for 1.7e5 (thorough 1.5e6) programs. Calls in the data and EEPROM segments, bodies of symbol directives only, arguments with every binary operator, 63..300 calls per build are generated too.",
                 note=TB + "; labels in bodies called twice, macros defined in bodies, unbounded recursion not generated"),
     "C10": dict(level="model_checking", ref="3 C10",
                 tech="TLC trace validation of symbol programs and their single-line deletion/duplication mutants against Assembler.tla",
@@ -53,7 +53,7 @@ CHECKS = {
                 note=TB + "; cross-kind clashes, .equ redefinition, .def of a bound alias not generated"),
     "C11": dict(level="model_checking", ref="3 C11",
                 tech="TLC trace validation of file trees (build_file) and their flattening (build_str) against Files.tla; paste theorem checked on every recorded tree",
-                text="Four base programs (symbols, a macro, device selection, conditionals, data, aliases) are cut at seeded safe positions into trees of up to 5 files / depth 3 and every file is placed in one of seven places (same directory, sub-directory in the path, caller-supplied directory, .includepath of the main file relative/absolute, .includepath declared in a nested file, path relative to the process directory), with optional .exit followed by garbage, plus missing-file variants; TLC requires build_file(tree) and build_str(flat) to equal the specification's results, the error of a missing file to name it, and RunTree(tree) = Run(flat).",
+                text="Four base programs (symbols, a macro, device selection, conditionals, data, aliases) are cut at seeded safe positions into trees of up to 5 files / depth 3 and every file is placed in one of seven places (same directory, sub-directory in the path, caller-supplied directory, .includepath of the main file relative/absolute, .includepath declared in a nested file, path relative to the process directory), with optional .exit followed by garbage, plus missing-file variants; TLC requires build_file(tree) and build_str(flat) to equal the specification's results, the error of a missing file to name it, and RunTree(tree) = Run(flat). Also: chains of files nested up to the documented limit of 32 (33 is refused), a file included two and three times, capitalised names, an included file with a two-byte character across 8 KiB boundaries.",
                 note=TB + "; a name never exists in more than one searched directory; conditionals/macros not split across files"),
     "C12": dict(level="model_checking", ref="3 C12",
                 tech="TLC trace validation of capacity boundary programs for every device row against Devices!Fits; part-definition files compared with the table by TLC",
@@ -69,7 +69,7 @@ CHECKS = {
                 note=TB + "; messages from macro bodies and lines inside included files excluded"),
     "C16": dict(level="exploration", ref="3 C16",
                 tech="bounded-exhaustive product of heads x operand dictionary defined by Api.tla, supervised execution, TLC (Trace_Api) checks completeness and accepts only ok/err",
-                text="Every single-line program `head op, op(, op)` over the 158 heads and the 46-entry operand dictionary that Api.tla defines (exported by TLC; ~3.4e5 programs with up to two operands in quick, 1.5e7 with three in thorough) plus token soups and seeded byte/token/line mutations of valid programs up to 64 KiB are built in supervised worker processes (watchdog 10 s, 2 GiB address space); every head with at most one operand is also put into eleven contexts (skipped branch, assembled branch, .elif position, macro body, other segments, small devices), and resource hogs are built under small devices in a 48 MiB address space. TLC checks that every group of the enumeration is complete and that every outcome is ok or err. Time, memory and crashes are observed by the operating system, not modelled - hence exploration, not model checking.",
+                text="Every single-line program `head op, op(, op)` over the 158 heads and the 46-entry operand dictionary that Api.tla defines (exported by TLC; ~3.4e5 programs with up to two operands in quick, 1.5e7 with three in thorough) plus token soups and seeded byte/token/line mutations of valid programs up to 64 KiB are built in supervised worker processes (watchdog 10 s, 2 GiB address space); every head with at most one operand is also put into eleven contexts (skipped branch, assembled branch, .elif position, macro body, other segments, small devices), and resource hogs are built under small devices in a 48 MiB address space. TLC checks that every group of the enumeration is complete and that every outcome is ok or err. Time, memory and crashes are observed by the operating system, not modelled - hence exploration, not model checking. Also: size-parameterised resource families (nesting, operator chains, guard-fooling character constants, definition chains in every letter case and through functions, doubling definitions, macro fan-out by calls and by lines, substitution blow-up, literals beyond 64 bits in twelve contexts) and the valid corpus once more in a thread with a 256 KiB stack; file trees that include themselves, devices, pipes and directories. Watchdog 20 s (the slowest job of the unchanged tree takes about 3 s).",
                 note=TB + "; harness profile release + overflow-checks"),
     "C17": dict(level="model_checking", ref="3 C17",
                 tech="TLC replay of recorded build sessions (sequential histories, TLC-generated stage interleavings with real threads, unsynchronised threads, fresh processes) through the actions of Api.tla; MC_Api",
@@ -77,7 +77,7 @@ CHECKS = {
                 note=TB + "; results compared by digest; gating through the public stage functions"),
     "C18": dict(level="model_checking", ref="3 C18",
                 tech="TLC trace validation of recorded runs of the real binary (argv, exit status, files before/after, lexed HEX records) against Cli!Allowed with the IHex reader",
-                text="11 sources (valid, code+EEPROM, EEPROM only, empty, > 64 KiB, failing in parse/pass 2/limits/include, missing file) x three source path forms x six output locations for each of -o and -e (default, writable, existing file, missing parent, a directory, /dev/full) x -v: the binary built from /repo is run in a scratch tree, and TLC requires: failed build => nothing created or altered, something printed, exit status non-zero; successful build => flash file decodes (IHex reader) to exactly the library's image, EEPROM file iff non-empty image, nothing else changes, exit 0 unless an output is unwritable.",
+                text="11 sources (valid, code+EEPROM, EEPROM only, empty, > 64 KiB, failing in parse/pass 2/limits/include, missing file) x three source path forms x six output locations for each of -o and -e (default, writable, existing file, missing parent, a directory, /dev/full) x -v: the binary built from /repo is run in a scratch tree, and TLC requires: failed build => nothing created or altered, something printed, exit status non-zero; successful build => flash file decodes (IHex reader) to exactly the library's image, EEPROM file iff non-empty image, nothing else changes, exit 0 unless an output is unwritable. Also: source file names with dots, spaces, no extension, reached through a symbolic link; the same file named for both images; an output cut short by a file size limit; images just over 1 MiB; the memory figures of the -v report against the library's for parts with and without EEPROM / SRAM.",
                 note=TB + "; library images obtained in-process from build_file with the same include set"),
 }
 
